@@ -390,18 +390,18 @@ func coqCase(x exchange, o obs) string {
 	if !head {
 		t := s.table()
 		for _, e := range encNames {
-			tab = append(tab, hk.CoqPair(coqEnc[e], hk.CoqPair(hk.CoqBytes(blob(t[e].out)), hk.CoqBool(t[e].failed))))
+			tab = append(tab, hk.CoqPair(coqEnc[e], hk.CoqPair(pk(blob(t[e].out)), hk.CoqBool(t[e].failed))))
 		}
 	} else {
 		for _, e := range encNames {
 			out, failed := refDecode(e, nil)
-			tab = append(tab, hk.CoqPair(coqEnc[e], hk.CoqPair(hk.CoqBytes(out), hk.CoqBool(failed))))
+			tab = append(tab, hk.CoqPair(coqEnc[e], hk.CoqPair(pk(out), hk.CoqBool(failed))))
 		}
 	}
 	parts := []string{"C14Case", coqStack[x.Stack], hk.CoqBool(x.Cfg.Disable), hk.CoqBool(x.Cfg.Auto),
-		hk.CoqStr(x.Req.AE), hk.CoqStr(x.Req.Range), hk.CoqBool(head), hk.CoqBool(ended),
-		hk.CoqStrList(s.CE), hk.CoqStrList(clh), hk.CoqZ(cl), hk.CoqBytes(blob(wire)), hk.CoqList(tab), coqNatList(x.Pat),
-		hk.CoqStr(o.SeenAE), hk.CoqStrList(o.CE), hk.CoqStrList(o.CLH), hk.CoqZ(o.CL), hk.CoqBool(o.Unc),
-		hk.CoqBytes(blob(o.Body)), hk.CoqBool(o.Err != "" || o.Fatal != ""), hk.CoqBool(o.Sticky)}
+		pks(x.Req.AE), pks(x.Req.Range), hk.CoqBool(head), hk.CoqBool(ended),
+		pkList(s.CE), pkList(clh), hk.CoqZ(cl), pk(blob(wire)), hk.CoqList(tab), coqNatList(x.Pat),
+		pks(o.SeenAE), pkList(o.CE), pkList(o.CLH), hk.CoqZ(o.CL), hk.CoqBool(o.Unc),
+		pk(blob(o.Body)), hk.CoqBool(o.Err != "" || o.Fatal != ""), hk.CoqBool(o.Sticky)}
 	return strings.Join(parts, " ")
 }
